@@ -8,6 +8,7 @@ CONSTANTS
   CloseKinds = {}
   MaxCalls = 1000000
   Strict = ${Strict}
+  EagerPark = TRUE
   Allowed <- TAllowed
   Budget <- TBudget
 INIT TInit
